@@ -54,3 +54,38 @@ def rerun(path, repo, quiet=False, as_status=False):
     print(out)
     print("replay: %s" % status)
     return {"confirmed": 1, "disagrees": 0}.get(status, 2)
+
+
+def function_of(target, world):
+    """Qualified function name for an undecided target / a missing obligation name."""
+    if target.startswith("obligation:"):
+        name = target[len("obligation:"):]
+        if name.startswith(("ast:", "lemma:")):
+            return None
+        head = name.split(".call[")[0]
+        # "<Class>::<Def>.<fn>.<clause>"  or  "<Def>.<fn>.<clause>" or "<fn>.<clause>"
+        if "::" in head:
+            head = head.split("::", 1)[1]
+        parts = head.split(".")
+        for q in world.repo.funcs:
+            tail = q.split("::", 1)[1]
+            if len(parts) >= 2 and tail == ".".join(parts[:2]):
+                return q
+        for q in world.repo.funcs:
+            tail = q.split("::", 1)[1]
+            if tail == parts[0]:
+                return q
+        return None
+    m = re.match(r"\('([^']+)',", target)
+    if m:
+        return m.group(1)
+    return target.split(" [self:")[0] if "::" in target else None
+
+
+def standin(prop, fn, reason, repo, replay_dir):
+    path = os.path.join(replay_dir, "standin_" + re.sub(r"[^A-Za-z0-9_.-]", "_", fn) + ".json")
+    data = {"property": prop, "obligation": "bounded stand-in for %s" % fn, "kind": "standin", "function": fn,
+            "clause": "", "model": {}, "verifier_output": {"status": "undecided", "reason": reason}, "repo": repo,
+            "note": "the function is outside the verifier's reach on this tree; its native scenario harness was run instead (bounded, not a proof)"}
+    json.dump(data, open(path, "w"), indent=1, default=str)
+    return path, rerun(path, repo, quiet=True, as_status=True)
